@@ -46,7 +46,17 @@ class ScriptIO:
             s.pos_err = len(s.err.buffer)
             s.cur = None
 
-    def readline(self):
+    def readline(self, size=-1):
+        # file semantics: a bounded read returns at most `size` characters and leaves the rest of the line
+        if getattr(self, 'pending', ''):
+            out, self.pending = (self.pending, '') if size is None or size < 0 else (self.pending[:size], self.pending[size:])
+            return out
+        line = self._next_line()
+        if size is not None and 0 <= size < len(line):
+            line, self.pending = line[:size], line[size:]
+        return line
+
+    def _next_line(self):
         s = self.s
         self._close_segment()
         self.reads.append((len(s.out.buffer), len(s.err.buffer)))
